@@ -47,6 +47,8 @@ fn main() {
     let meta_file = |ilst_children: Vec<u8>| -> Vec<u8> { let mut hd = Vec::new(); HdlrBox{version:0, flags:0, handler_type: str::parse("mdir").unwrap(), name: String::new()}.write_box(&mut hd).unwrap(); let mut metap = vec![0u8,0,0,0]; metap.extend(hd); metap.extend(boxed(b"ilst", &ilst_children)); let udta = boxed(b"udta", &boxed(b"meta", &metap)); let mut mv = Vec::new(); MvhdBox::default().write_box(&mut mv).unwrap(); mv.extend(udta); let mut f = ftyp(); f.extend(boxed(b"moov", &mv)); f.extend([0u8;64]); f };
     case("ilst item with 12-byte data box", || { let item = boxed(&[0xa9, b'n', b'a', b'm'], &boxed(b"data", &[0,0,0,1])); let f = meta_file(item); let n = f.len() as u64; format!("{:?}", Mp4Reader::read_header(Cursor::new(f), n).map(|_| ())) });
     case("meta(unknown hdlr) child with size 4", || { let mut hd = Vec::new(); HdlrBox{version:0, flags:0, handler_type: str::parse("abcd").unwrap(), name: String::new()}.write_box(&mut hd).unwrap(); let mut metap = vec![0u8,0,0,0]; metap.extend(hd); metap.extend([0u8,0,0,4, b'x', b'x', b'x', b'x']); let udta = boxed(b"udta", &boxed(b"meta", &metap)); let mut mv = Vec::new(); MvhdBox::default().write_box(&mut mv).unwrap(); mv.extend(udta); let mut f = ftyp(); f.extend(boxed(b"moov", &mv)); f.extend([0u8;64]); let n = f.len() as u64; format!("{:?}", Mp4Reader::read_header(Cursor::new(f), n).map(|_| ())) });
+    // determinism of JSON rendering: same bytes opened twice
+    case("ilst to_json order across two opens", || { let data = |b: &[u8]| { let mut p = vec![0u8,0,0,1, 0,0,0,0]; p.extend(b); boxed(b"data", &p) }; let mut items = boxed(&[0xa9, b'n', b'a', b'm'], &data(b"t")); items.extend(boxed(&[0xa9, b'd', b'a', b'y'], &data(b"2020"))); items.extend(boxed(b"covr", &data(b"p"))); items.extend(boxed(b"desc", &data(b"s"))); let f = meta_file(items); let mut seen = std::collections::HashSet::new(); for _ in 0..16 { let r = open(f.clone()); let j = match r.moov.udta.as_ref().unwrap().meta.as_ref().unwrap() { MetaBox::Mdir{ilst} => ilst.as_ref().unwrap().to_json().unwrap(), _ => String::new() }; seen.insert(j); } format!("{} distinct JSON renderings in 16 opens", seen.len()) });
     // mappings
     case("AvcProfile (66, 0x40)", || format!("{:?}", AvcProfile::try_from((66u8, 0x40u8))));
     case("FourCC ©nam text round trip", || { let c = FourCC::from(0xA96E616Du32); format!("{:?}", c.to_string().parse::<FourCC>().map(|d| d == c)) });
